@@ -5,23 +5,44 @@
 //!   avsim --trace-hash --property C02 --runs N [--seed N]     (determinism selftest)
 #![cfg_attr(feature = "nightly", feature(generic_const_exprs))]
 #![cfg_attr(feature = "nightly", allow(incomplete_features))]
+// `float` = the crate under test is built with `std` or `libm` (three of the four build
+// configurations). Without it (the "bare" configuration) most estimator types do not exist
+// and only the self-contained simulator of bare.rs is compiled.
+mod bare;
+#[cfg(feature = "float")]
 mod concat;
+#[cfg(feature = "float")]
 mod doubling;
+#[cfg(feature = "float")]
 mod drv_rayon;
+#[cfg(feature = "float")]
 mod durable;
+#[cfg(feature = "float")]
 mod envelope;
+#[cfg(feature = "float")]
 mod exact;
+#[cfg(feature = "float")]
 mod exec;
 mod framework;
 mod gen;
+#[cfg(feature = "float")]
 mod giant;
+#[cfg(feature = "float")]
 mod hist;
+#[cfg(feature = "float")]
 mod htypes;
 mod medium;
+#[cfg(feature = "float")]
 mod p2model;
+#[cfg(feature = "float")]
 mod props_r;
+#[cfg(feature = "float")]
+mod registry;
+#[cfg(not(feature = "float"))]
+#[path = "registry_bare.rs"]
 mod registry;
 mod rng;
+#[cfg(feature = "float")]
 mod types;
 
 use framework::*;
@@ -342,7 +363,11 @@ fn check_property(prop: &str, tier: Tier, seed: u64, scale: f64, only: Option<&s
     }
 }
 
+#[cfg(not(feature = "float"))]
+fn oracle_cases() {}
+
 /// dump exact-oracle results for random samples; compared with python fractions by oracle_selftest.py
+#[cfg(feature = "float")]
 fn oracle_cases() {
     let mut rng = rng::Rng::new(20260928);
     let mut out = vec![];
